@@ -255,6 +255,16 @@ func (c *SizedLRU) RemoveElement(elem *list.Element) {
 	c.gaugeCacheLogicalBytes.Set(float64(c.uncompressedSize))
 }
 
+// RemoveKeyIfUnchanged removes key from the cache, but only if it still
+// maps to value (i.e. it has not been removed or replaced since the caller
+// looked it up).
+func (c *SizedLRU) RemoveKeyIfUnchanged(key string, value lruItem) {
+	if elem, hit := c.cache[key]; hit && elem.Value.(*entry).value == value {
+		c.removeElement(elem)
+		c.gaugeCacheLogicalBytes.Set(float64(c.uncompressedSize))
+	}
+}
+
 // Len returns the number of items in the cache
 func (c *SizedLRU) Len() int {
 	return len(c.cache)
